@@ -447,6 +447,9 @@ func runCheck(env *Env, id, tier string, spec *CheckSpec, doReplay bool) int {
 		writeJSON(path, []*PathRecord{rec})
 		fmt.Printf("VIOLATION property=%s replay=%s\n", id, path)
 		fmt.Printf("  entry=%s cfg=%d assert=%q inputs=%s (%d paths)\n", k.entry, rec.Cfg, k.label, fmtNondet(rec.Nondet), viols[k].Count)
+		if rec.Note != "" {
+			fmt.Printf("  note: %s\n", rec.Note)
+		}
 		exit = 1
 	}
 	for _, n := range replayNotes {
@@ -565,7 +568,7 @@ func runCheck(env *Env, id, tier string, spec *CheckSpec, doReplay bool) int {
 		}
 		for _, k := range violOrder {
 			r := viols[k].Recs[0]
-			fmt.Printf("  solver-violation %s:%s cfg=%d x%d confirmed=%v inputs=%s\n", k.entry, k.label, r.Cfg, viols[k].Count, confirmed[k] != nil, fmtNondet(r.Nondet))
+			fmt.Printf("  solver-violation %s:%s cfg=%d x%d confirmed=%v inputs=%s %s\n", k.entry, k.label, r.Cfg, viols[k].Count, confirmed[k] != nil, fmtNondet(r.Nondet), r.Note)
 		}
 	}
 	return exit
@@ -592,11 +595,12 @@ func fmtNondet(n []NondetVal) string {
 // native replay
 
 type NativeOut struct {
-	Outcome  string   `json:"outcome"` // end | assert | panic | assume | timeout | exhausted
-	Fail     string   `json:"fail,omitempty"`
-	PanicMsg string   `json:"panic_msg,omitempty"`
-	Obs      []Obs    `json:"obs,omitempty"`
-	Reach    []string `json:"reach,omitempty"`
+	RaceReport string   `json:"race_report,omitempty"`
+	Outcome    string   `json:"outcome"` // end | assert | panic | assume | timeout | exhausted
+	Fail       string   `json:"fail,omitempty"`
+	PanicMsg   string   `json:"panic_msg,omitempty"`
+	Obs        []Obs    `json:"obs,omitempty"`
+	Reach      []string `json:"reach,omitempty"`
 }
 
 func nativeReplay(env *Env, ld *Loaded, module, pkg string, recs []*PathRecord) ([]NativeOut, error) {
@@ -645,6 +649,17 @@ func nativeReplay(env *Env, ld *Loaded, module, pkg string, recs []*PathRecord) 
 		return nil, err
 	}
 	args := []string{"test", "-vet=off", "-count=1", "-tags=verif_harness", "-run", "^TestVerifReplay$", "-timeout", "20m", "-overlay", ovF, "./" + pkg}
+	raceMode := false
+	for _, r := range recs {
+		if strings.HasPrefix(r.Entry, "Verif_C12") {
+			raceMode = true
+		}
+	}
+	if raceMode {
+		// concurrency harnesses are replayed under the Go race detector, one record per process so that a report
+		// can be attributed to its record
+		return nativeReplayRace(env, module, pkg, recs, ovF, inF, outF)
+	}
 	cmd := exec.Command("go", args...)
 	cmd.Dir = filepath.Join(env.Repo, module)
 	cmd.Env = append(goEnv(env, module), "VERIF_REPLAY="+inF, "VERIF_REPLAY_OUT="+outF)
@@ -661,6 +676,56 @@ func nativeReplay(env *Env, ld *Loaded, module, pkg string, recs []*PathRecord) 
 		outs = append(outs, NativeOut{Outcome: "exhausted"})
 	}
 	return outs, nil
+}
+
+// nativeReplayRace runs every record in its own `go test -race` process. A "WARNING: DATA RACE" in the output turns
+// the outcome of a record whose expected failure is the race assertion into that failure.
+func nativeReplayRace(env *Env, module, pkg string, recs []*PathRecord, ovF, inF, outF string) ([]NativeOut, error) {
+	var outs []NativeOut
+	for _, rec := range recs {
+		if err := writeJSON(inF, []*PathRecord{rec}); err != nil {
+			return nil, err
+		}
+		os.Remove(outF)
+		args := []string{"test", "-race", "-gcflags=all=-d=checkptr=0", "-vet=off", "-count=1", "-tags=verif_harness", "-run", "^TestVerifReplay$", "-timeout", "10m", "-overlay", ovF, "./" + pkg}
+		cmd := exec.Command("go", args...)
+		cmd.Dir = filepath.Join(env.Repo, module)
+		cmd.Env = append(goEnv(env, module), "VERIF_REPLAY="+inF, "VERIF_REPLAY_OUT="+outF, "GORACE=halt_on_error=0", "VERIF_REPEAT=300")
+		out, _ := cmd.CombinedOutput()
+		var one []NativeOut
+		if b, err := os.ReadFile(outF); err == nil {
+			json.Unmarshal(b, &one)
+		}
+		o := NativeOut{Outcome: "exhausted"}
+		if len(one) > 0 {
+			o = one[0]
+		} else if !strings.Contains(string(out), "DATA RACE") {
+			return nil, fmt.Errorf("go test -race produced no result: %s ... %s", string(out)[:min(len(out), 1800)], tail(string(out), 300))
+		}
+		if strings.Contains(string(out), "WARNING: DATA RACE") {
+			o.RaceReport = firstRace(string(out))
+			if o.Outcome == "end" || o.Outcome == "exhausted" {
+				o.Outcome, o.Fail = "assert", "C12/no-data-race"
+			}
+		}
+		outs = append(outs, o)
+	}
+	return outs, nil
+}
+
+func firstRace(out string) string {
+	i := strings.Index(out, "WARNING: DATA RACE")
+	if i < 0 {
+		return ""
+	}
+	s := out[i:]
+	if j := strings.Index(s, "=================="); j > 0 {
+		s = s[:j]
+	}
+	if len(s) > 1200 {
+		s = s[:1200]
+	}
+	return s
 }
 
 func tail(s string, n int) string {
@@ -767,6 +832,9 @@ func cmdReplay(env *Env, file string) int {
 	rc := 0
 	for i, o := range outs {
 		fmt.Printf("replay %s cfg=%d inputs=%s -> native outcome=%s fail=%q panic=%q\n", recs[i].Entry, recs[i].Cfg, fmtNondet(recs[i].Nondet), o.Outcome, o.Fail, o.PanicMsg)
+		if o.RaceReport != "" {
+			fmt.Println(o.RaceReport)
+		}
 		if o.Outcome == "assert" {
 			rc = 1
 		}
